@@ -241,6 +241,26 @@ def evaluate():
             want = [sum(p[i] * p[k - i] for i in range(len(p)) if 0 <= k - i < len(p)) for k in range(2 * len(p) - 1)]
             ok = ok and cv is not None and len(cv) == len(want) and np.allclose(cv, want, rtol=1e-12, atol=0)
         return ok, 'origin %%r / %%r' %% (tuple(map(float, o1)), tuple(map(float, o2)))
+    if clause == 'center_image':
+        # observed through abel.center_image: the origin found by the method is put on (rows//2, cols//2) of the
+        # result; IM holds a blob symmetric about a pixel centre.  image_center: no shift at all.
+        from abel.tools.center import center_image
+        out = center_image(IM, method=meth, odd_size=P['odd_size'], square=P['square'], axes=(0, 1), order=P['order'])
+        if meth == 'image_center':
+            T = IM[:, :IM.shape[1] - 1] if (P['odd_size'] and IM.shape[1] %% 2 == 0) else IM
+            r, c = T.shape
+            if P['square'] and r != c:
+                if r > c:
+                    T = T[(r - c) // 2:(r - c) // 2 + c]
+                else:
+                    if P['odd_size'] and r %% 2 == 0:
+                        T = T[:r - 1]; r -= 1
+                    T = T[:, (c - r) // 2:(c - r) // 2 + r]
+            return out.shape == T.shape and np.array_equal(out, T), 'shape %%r -> %%r (trimmed input %%r)' %% (IM.shape, out.shape, T.shape)
+        tot = out.sum()
+        cm = [float((np.arange(out.shape[a]) * out.sum(axis=1 - a)).sum() / tot) for a in (0, 1)]
+        d = max(abs(cm[a] - out.shape[a] // 2) for a in (0, 1))
+        return d <= P['tol'], 'centre of the blob in the result %%r, image centre %%r' %% (cm, [out.shape[0] // 2, out.shape[1] // 2])
     if clause == 'scale-pow2':
         # multiplying by a power of two scales every float exactly: the reported origin must be bit-identical
         o2 = find_origin(IM * 2.0 ** P['k'], method=meth, axes=axes)
@@ -464,6 +484,29 @@ def search(ctx, rng, budget):
                           'the integer nearest to the spot centre %r' % (mu,), 0.0, expected=list(mu), spot=spot)
                 if not eval_snippet_clause(h):
                     hits.append(h)
+    # 6b. observed through abel.center_image: a blob symmetric about a pixel centre near the middle ends up centred on
+    #     (rows//2, cols//2) of the result, for every method, odd_size / square flag, parity and aspect
+    for it in range(max(40, budget // 4)):
+        n, m = (int(v) for v in rng.integers(12, 40, size=2))
+        k0, k1 = n // 2 + int(rng.integers(-2, 3)), m // 2 + int(rng.integers(-2, 3))
+        IMc = np.zeros((n, m))
+        X = rng.integers(1, 9, size=(5, 5)).astype(float)
+        if it % 2:
+            g = np.exp(-np.arange(-2, 3) ** 2 / 2.0)
+            X = np.outer(g, g) * 50
+        IMc[k0 - 2:k0 + 3, k1 - 2:k1 + 3] = X + X[::-1, ::-1]
+        odd, sq = bool(rng.random() < 0.6), bool(rng.random() < 0.4)
+        meth = ['image_center', 'com', 'convolution', 'gaussian'][rng.integers(4)]
+        if meth == 'gaussian' and not it % 2:
+            meth = 'com'
+        order = int(rng.integers(0, 4))
+        n_eval += 1
+        distinct.add(('ci', meth, odd, sq, n % 2, m % 2, (n > m) - (n < m), order))
+        h = mkhit('center_image', meth, (0, 1), IMc, 'center_image(method=%r, odd_size=%s, square=%s, order=%d) on a %r image with a blob '
+                  'symmetric about pixel (%d, %d) does not put it on the image centre' % (meth, odd, sq, order, (n, m), k0, k1),
+                  1e-6 if meth != 'gaussian' else 1e-5, odd_size=odd, square=sq, order=order)
+        if not eval_snippet_clause(h):
+            hits.append(h)
     # 7. Gaussian spots over the whole space: frames 10 .. 1100 px, width 0.6 px .. a quarter of the frame,
     #    positions anywhere the spot (+-3 sigma) is inside the frame, other axis 12 / 40 / 300 px, amplitudes over 5
     #    decades, with and without background: a deterministic grid (frame x width x position) with random jitter,
@@ -522,7 +565,7 @@ def run(ctx):
                         'mirrored about a centre of the half-pixel grid within 2 px of the middle -> com (1e-9*size) and '
                         'convolution (exact); (2) content with empty margins rolled by whole pixels, (3) multiplied by a '
                         'positive factor (convolution: powers of two, or small integers on integer content, so that exact ties stay tied in binary64), (4) image_center, (5) coordinates of axes not requested, for image_center / com / '
-                        'convolution; (6) noiseless Gaussian spots for the gaussian method (1e-6 px), frames 12..80 px and a few of 400..1100 px, plus (7) a grid of ~410 spots: axis 10..1100 px x width 0.6 px..frame/4 x 6 positions, other axis 12/40/300 px, amplitude 1e-2..1e3, background; all four methods: multiplication by 2**k, |k| <= 400, must give a bit-identical origin. distinct = (clause '
+                        'convolution; (6) noiseless Gaussian spots for the gaussian method (1e-6 px), frames 12..80 px and a few of 400..1100 px, plus (6b) abel.center_image puts a blob symmetric about a pixel centre on the image centre (every method / flag / parity); (7) a grid of ~410 spots: axis 10..1100 px x width 0.6 px..frame/4 x 6 positions, other axis 12/40/300 px, amplitude 1e-2..1e3, background; all four methods: multiplication by 2**k, |k| <= 400, must give a bit-identical origin. distinct = (clause '
                         'family, method, axes, parities, centre parities or shift signs); correspondence cases counted in '
                         'evaluations only',
                    samples=[dict(kind=c['kind'], shape=list(np.asarray(c['IM']).shape), method=c['meth'],
